@@ -162,7 +162,7 @@ def spec_lineprefix(s: str, prefix: str) -> str:
 PIECES = ["x", "{{ a }}", "{{ a|upper }}", "{% if b %}T{% else %}F{% endif %}", "{% for i in l %}[{{ i }}]{% endfor %}", "{% set z = a ~ '!' %}{{ z }}", "\n",
           "  {%- if b %} T {%- endif %}  ", "{# c #}", "{% raw %}{{ r }}{% endraw %}", "{% filter upper %}f{{ a }}{% endfilter %}",
           "{% macro m(q) %}<{{ q }}>{% endmacro %}{{ m(a) }}", "{{ l|join(',') }}", "{{ a if b else 'n' }}", "{% for i in l if i > 1 %}{{ loop.index }}{% else %}E{% endfor %}", "{{ '{{' }}", " * ", "{ %",
-          "{% if b -%}\n  A\n{%- endif %}", "{{ a }}\n{{ a }}\r\n"]
+          "{% if b -%}\n  A\n{%- endif %}", "{{ a }}\n{{ a }}\r\n", "{% raw -%}   r {{ q }}  {%- endraw %}", "  {%- raw %} s {% endraw -%}  ", "{# c -#}   "]
 CONTEXTS = [{"a": "v", "b": True, "l": [1, 2, 3]}, {"a": "<w>\n2", "b": False, "l": []}]
 
 
@@ -249,7 +249,7 @@ def tags_as_conditionals(run, args):
     from nunavut.jinja.extensions import JinjaAssert, UseQuery
     from nunavut.lang import LanguageContextBuilder
     n = 0
-    for expr, truth in (("True", True), ("1 == 1", True), ("x", True), ("False", False), ("1 == 2", False), ("y", False), ("not x", False)):
+    for expr, truth in (("True", True), ("1 == 1", True), ("x", True), ("False", False), ("1 == 2", False), ("y", False), ("not x", False), ("''", False), ("[]", False), ("0", False), ("none", False)):
         n += 1
         t = f"A{{% assert {expr} %}}B"
         e = CodeGenEnvironmentBuilder(DictLoader({"t": t}), LanguageContextBuilder().create()).set_extensions(JinjaAssert).create()
@@ -260,17 +260,27 @@ def tags_as_conditionals(run, args):
         want = ("ok", "AB") if truth else ("err", "TemplateAssertionError")
         if out != want:
             return {"input": {"template": t}, "why": f"{out!r}, an ordinary conditional over the argument gives {want!r}", "evaluations": n}, n
-    for lang, std, want in (("cpp", "c++17", "V"), ("cpp", "c++14", "N")):
-        n += 1
-        t = '{% ifuses "std_variant" %}V{% else %}N{% endifuses %}'
-        lctx = LanguageContextBuilder(include_experimental_languages=True).set_target_language(lang).set_target_language_configuration_override("options", {"std": std}).create()
-        e = CodeGenEnvironmentBuilder(DictLoader({"t": t}), lctx).set_extensions(UseQuery).create()
-        try:
-            out = e.get_template("t").render()
-        except Exception as ex:
-            out = f"<{type(ex).__name__}>"
-        if out != want:
-            return {"input": {"template": t, "std": std}, "why": f"renders {out!r}, expected {want!r}", "evaluations": n}, n
+    # chains: every shape if[n]uses / elif[n]uses* / else over two queries with known truth values (std_variant is true for
+    # c++17 and false for c++14) against the selection an ordinary if / elif / else chain makes
+    import itertools as _it
+    for std, truth in (("c++17", True), ("c++14", False)):
+        lctx = LanguageContextBuilder(include_experimental_languages=True).set_target_language("cpp").set_target_language_configuration_override("options", {"std": std}).create()
+        for first in ("ifuses", "ifnuses"):
+            for k in range(0, 3):
+                for mids in _it.product(("elifuses", "elifnuses"), repeat=k):
+                    for has_else in (True, False):
+                        n += 1
+                        end = "end" + first
+                        t = f'{{% {first} "std_variant" %}}0' + "".join(f'{{% {m} "std_variant" %}}{i + 1}' for i, m in enumerate(mids)) + ("{% else %}E" if has_else else "") + f"{{% {end} %}}"
+                        conds = [truth if first == "ifuses" else not truth] + [truth if m == "elifuses" else not truth for m in mids]
+                        want = next((str(i) for i, c in enumerate(conds) if c), "E" if has_else else "")
+                        e = CodeGenEnvironmentBuilder(DictLoader({"t": t}), lctx).set_extensions(UseQuery).create()
+                        try:
+                            out = e.get_template("t").render()
+                        except Exception as ex:
+                            out = f"<{type(ex).__name__}>"
+                        if out != want:
+                            return {"input": {"template": t, "std": std}, "why": f"renders {out!r}; an ordinary if/elif/else over the queries' truth ({truth}) selects {want!r}", "evaluations": n}, n
     return None, n
 
 
@@ -290,7 +300,7 @@ def main():
     for name, fn, bound in (("native: bundled engine == stock Jinja2 on marker-free templates", differential, f"all sequences of up to 2 (thorough: 3, sampled) of {len(PIECES)} template pieces x {len(CONTEXTS)} contexts x 3 environment settings, stock version {S.__version__}"),
                             ("native: auto-indent marker renders the plain construct with prefixed lines", marker_semantics, "4 values x 4 prefixes x {expression, block} x {LF, CRLF}"),
                             ("native: do_lineprefix == specification", lineprefix_exhaustive, "all strings up to length 5 (thorough: 7) over {a, space, LF, CR} x 3 prefixes"),
-                            ("native: assert / ifuses behave as conditionals", tags_as_conditionals, "7 assert arguments, 2 ifuses configurations")):
+                            ("native: assert / ifuses behave as conditionals", tags_as_conditionals, "7 assert arguments (incl. falsy non-bool values), every if[n]uses/elif[n]uses/else chain of up to 3 links x 2 truth values")):
         w, n = fn(run, args)
         run.add_bounded(name, bound, n, w is None, "" if w is None else f"{w['input']}: {w['why']}")
         if w is not None:
